@@ -42,6 +42,7 @@ import (
 	"github.com/codenotary/immudb/embedded/logger"
 	"github.com/codenotary/immudb/embedded/multierr"
 	"github.com/codenotary/immudb/embedded/tbtree"
+	"github.com/codenotary/immudb/embedded/verifhook"
 	"github.com/codenotary/immudb/embedded/watchers"
 	"github.com/codenotary/immudb/pkg/helpers/semaphore"
 	"github.com/codenotary/immudb/pkg/helpers/slices"
@@ -1616,6 +1617,8 @@ func (s *ImmuStore) commit(ctx context.Context, otx *OngoingTx, expectedHeader *
 		return nil, err
 	}
 
+	verifhook.Point("store.commit.beforeWait")
+
 	// note: durability is ensured only if the store is in sync mode
 	err = s.commitWHub.WaitFor(ctx, hdr.ID)
 	if errors.Is(err, watchers.ErrAlreadyClosed) {
@@ -1764,6 +1767,8 @@ func (s *ImmuStore) precommit(ctx context.Context, otx *OngoingTx, hdr *TxHeader
 			return nil, fmt.Errorf("%w: attempt to commit a tx with invalid blRoot", ErrIllegalArguments)
 		}
 	}
+
+	verifhook.Point("store.precommit.beforeLock")
 
 	s.mutex.Lock()
 	defer s.mutex.Unlock()
@@ -2009,6 +2014,7 @@ func (s *ImmuStore) performPrecommit(tx *Tx, entries []*EntrySpec, ts int64, blT
 	if err != nil {
 		return err
 	}
+	verifhook.Point("store.performPrecommit.afterTxLogAppend")
 
 	_, _, err = s.txLogCache.Put(tx.header.ID, txbs)
 	if err != nil {
@@ -2028,6 +2034,8 @@ func (s *ImmuStore) performPrecommit(tx *Tx, entries []*EntrySpec, ts int64, blT
 	if err != nil {
 		return err
 	}
+
+	verifhook.Note("store.issued", s.inmemPrecommittedTxID+1, uint64(txOff), alh)
 
 	s.inmemPrecommittedTxID++
 	s.inmemPrecommittedAlh = alh
@@ -2207,6 +2215,8 @@ func (s *ImmuStore) mayCommit() error {
 		return fmt.Errorf("%w: may commit up to %d but actual transaction to be committed is %d", ErrUnexpectedError, commitAllowedUpToTxID, commitUpToTxID)
 	}
 
+	verifhook.Point("store.mayCommit.beforeCLogFlush")
+
 	err = s.cLog.Flush()
 	if err != nil {
 		return err
@@ -2219,6 +2229,7 @@ func (s *ImmuStore) mayCommit() error {
 
 	s.committedTxID = commitUpToTxID
 	s.committedAlh = commitUpToTxAlh
+	verifhook.Note("store.committed", commitUpToTxID, 0, commitUpToTxAlh)
 
 	s.commitWHub.DoneUpto(commitUpToTxID)
 
@@ -2230,6 +2241,8 @@ func (s *ImmuStore) CommitWith(ctx context.Context, callback func(txID uint64, i
 	if err != nil {
 		return nil, err
 	}
+
+	verifhook.Point("store.commit.beforeWait")
 
 	// note: durability is ensured only if the store is in sync mode
 	err = s.commitWHub.WaitFor(ctx, hdr.ID)
@@ -2975,6 +2988,8 @@ func (s *ImmuStore) ReplicateTx(ctx context.Context, exportedTx []byte, skipInte
 		}
 	}
 
+	verifhook.Point("store.replicateTx.beforePrecommit")
+
 	txHdr, err := s.precommit(ctx, txSpec, hdr, skipIntegrityCheck)
 	if err != nil {
 		return nil, err
@@ -3422,6 +3437,7 @@ func (s *ImmuStore) sync() error {
 	if err != nil {
 		return err
 	}
+	verifhook.Point("store.sync.afterTxLogSync")
 
 	err = s.durablePrecommitWHub.DoneUpto(s.inmemPrecommittedTxID)
 	if err != nil {
@@ -3492,6 +3508,7 @@ func (s *ImmuStore) sync() error {
 
 	s.committedTxID = commitUpToTxID
 	s.committedAlh = commitUpToTxAlh
+	verifhook.Note("store.committed", commitUpToTxID, 0, commitUpToTxAlh)
 
 	s.commitWHub.DoneUpto(commitUpToTxID)
 
